@@ -77,6 +77,16 @@ def shards(tier, seed):
 def gen_dir(rng):
     """(lon, lat, class)"""
     r = rng.random()
+    if r < 0.04:
+        # directions on the meridians and parallels that the constants of
+        # the galactic transformation single out (the pole of the Galaxy at
+        # RA 192.25, Dec 27.4; the node at l = 33, 123), where one argument
+        # of an atan2() is an exact zero
+        lon = rng.choice((192.25, 12.25, 282.25, 102.25, 123.0, 303.0, 33.0,
+                          213.0))
+        lat = rng.choice((27.4, -27.4, 62.6, -62.6, rng.uniform(-89, 89),
+                          rng.uniform(27.4, 89), rng.uniform(-89, -27.4)))
+        return lon, lat, "galactic-axes"
     if r < 0.45:
         z = rng.uniform(-1, 1)
         return rng.uniform(0, 360), math.degrees(math.asin(z)), "uniform"
